@@ -1,0 +1,37 @@
+//go:build verif
+
+package store
+
+import (
+	"github.com/feichai0017/NoKV/manifest"
+	"github.com/feichai0017/NoKV/pb"
+)
+
+// Accessors for the verification harness (/verif, properties C24 and C25).
+// Add-only; compiled only with -tags verif.
+
+// VerifValidateRegionEpoch exposes validateRegionEpoch.
+func VerifValidateRegionEpoch(reqEpoch *pb.RegionEpoch, meta manifest.RegionMeta) *pb.RegionError {
+	return validateRegionEpoch(reqEpoch, meta)
+}
+
+// VerifValidateRequestKeys exposes validateRequestKeys.
+func VerifValidateRequestKeys(meta manifest.RegionMeta, req *pb.RaftCmdRequest) *pb.RegionError {
+	return validateRequestKeys(meta, req)
+}
+
+// VerifKeyInRange exposes keyInRange.
+func VerifKeyInRange(meta manifest.RegionMeta, key []byte) bool {
+	return keyInRange(meta, key)
+}
+
+// VerifTrimScanResponse exposes trimScanResponse.
+func VerifTrimScanResponse(meta manifest.RegionMeta, req *pb.RaftCmdRequest, resp *pb.RaftCmdResponse) {
+	trimScanResponse(meta, req, resp)
+}
+
+// VerifApplyAdmin applies an admin command (split / merge) directly, as the
+// raft apply path does through handleAdminCommand.
+func (s *Store) VerifApplyAdmin(cmd *pb.AdminCommand) error {
+	return s.handleAdminCommand(cmd)
+}
